@@ -232,6 +232,15 @@ func (e *Env) apply(f *Fault) {
 		s := f.Server % len(c.Servers)
 		e.Stall[s] = f.Count
 		desc = fmt.Sprintf("stall rs%d window=%d", s, f.Count)
+	case "slow":
+		// the server takes its time: a request is executed this long after it arrived
+		if !e.FreeMode {
+			s := f.Server % len(c.Servers)
+			e.Slow[s] = ms(f.Dur)
+			desc = fmt.Sprintf("slow rs%d %v", s, e.Slow[s])
+		}
+	case "unslow":
+		delete(e.Slow, f.Server%len(c.Servers))
 	case "unstall":
 		s := f.Server % len(c.Servers)
 		e.unstall(s)
@@ -328,6 +337,9 @@ func (e *Env) Heal() {
 		e.unstall(s.Idx)
 	}
 	e.DialDelay = 0
+	for k := range e.Slow {
+		delete(e.Slow, k)
+	}
 	e.ZK.Fail = 0
 	e.ZK.Delay = 0
 	c.MetaZK = c.Meta
